@@ -27,7 +27,16 @@ def pick(rnd, i):
     gran = None
     if name != "XOR" and width in (4, 8) and rnd.random() < 0.35:
         gran = rnd.choice([g for g in (1, 2, 4) if width % g == 0 and g < width])
-    return {"cls": name, "width": width, "depth": depth, "read_ports": rp, "write_ports": wp, "init": init_kind, "granularity": gran}
+    # array-shaped rows (a fifth of the configurations): the granularity then counts ELEMENTS, as in amaranth.lib.memory
+    array = None
+    if rnd.random() < 0.2:
+        array = (rnd.choice([1, 2, 4]), rnd.choice([2, 4]))
+        width = array[0] * array[1]
+        init_kind = "none"  # (initial contents of array rows are given per element; the multiport memories take flattened rows: not compared)
+        gran = None
+        if name != "XOR" and rnd.random() < 0.6:
+            gran = rnd.choice([1, 2] if array[1] == 4 else [1])
+    return {"cls": name, "width": width, "depth": depth, "read_ports": rp, "write_ports": wp, "init": init_kind, "granularity": gran, "array_row(element_width,count)": array}
 
 
 def run_config(rec, rnd, cfg, cycles):
@@ -39,14 +48,27 @@ def run_config(rec, rnd, cfg, cycles):
     klass = KLASS_GRAN if gran is not None and cfg["cls"] in ("XORILVT", "OneHotILVT") else ""
     try:
         m = Module()
-        dut = cls(shape=width, depth=depth, init=init)
-        ref = amem.Memory(shape=width, depth=depth, init=init)
+        array = cfg.get("array_row(element_width,count)")
+        if array:
+            from amaranth.lib.data import ArrayLayout
+            shape = ArrayLayout(array[0], array[1])
+            rows = [[(v >> (k * array[0])) & ((1 << array[0]) - 1) for k in range(array[1])] for v in init]
+            dut = cls(shape=shape, depth=depth, init=rows)
+            ref = amem.Memory(shape=shape, depth=depth, init=rows)
+            rec.count("configurations_with_array_rows")
+        else:
+            dut = cls(shape=width, depth=depth, init=init)
+            ref = amem.Memory(shape=width, depth=depth, init=init)
         m.submodules.dut = dut
         m.submodules.ref = ref
         dw = [dut.write_port(granularity=gran) for _ in range(wp)]
         rw = [ref.write_port(granularity=gran) for _ in range(wp)]
         dr = [dut.read_port(transparent_for=[dw[j] for j in subsets[i]]) for i in range(rp)]
         rr = [ref.read_port(transparent_for=[rw[j] for j in subsets[i]]) for i in range(rp)]
+        if any(len(a.en) != len(b.en) for a, b in zip(dw, rw)):
+            rec.check("write_enable_has_the_width_of_the_ideal_memory_port", False, klass=klass, case=case,
+                      detail={"dut_en_width": [len(a.en) for a in dw], "ideal_en_width": [len(b.en) for b in rw]})
+            return
         sim = Simulator(m)
         sim.add_clock(1e-6)
     except Exception:
@@ -72,7 +94,7 @@ def run_config(rec, rnd, cfg, cycles):
                 for p in (dw[i], rw[i]):
                     ctx.set(p.en, en)
                     ctx.set(p.addr, a)
-                    ctx.set(p.data, d)
+                    ctx.set(p.data.as_value() if hasattr(p.data, "as_value") else p.data, d)
                 ws.append((en, a, d))
             rs = []
             for i in range(rp):
@@ -99,8 +121,8 @@ def run_config(rec, rnd, cfg, cycles):
             for en, a, _ in ws:
                 if en:
                     last_w[a] = cyc
-            got = [ctx.get(dr[i].data) for i in range(rp)]
-            exp = [ctx.get(rr[i].data) for i in range(rp)]
+            got = [int(ctx.get(dr[i].data.as_value() if hasattr(dr[i].data, "as_value") else dr[i].data)) for i in range(rp)]
+            exp = [int(ctx.get(rr[i].data.as_value() if hasattr(rr[i].data, "as_value") else rr[i].data)) for i in range(rp)]
             hist.append({"cycle": cyc, "writes(en,addr,data)": ws, "reads(en,addr)": rs, "dut": got, "ideal": exp})
             del hist[:-8]
             for i in range(rp):
